@@ -3,6 +3,7 @@ from ..core import holds, violation, unrecognised
 from . import dls
 
 ID = "C04"
+ANCHORS = 'deep_lift_shap._nonlinear,deep_lift_shap.hypothetical_attributions,deep_lift_shap._register_hooks,deep_lift_shap._fp_hook,deep_lift_shap._f_hook,deep_lift_shap._b_hook'.split(",")
 MIN_INSTANCES = 9
 EXPLANATION = (
     "R-TERM (local, algebraic): the backward rule deep_lift_shap._nonlinear is evaluated symbolically into a rational normal form "
